@@ -337,12 +337,53 @@ def outermost (sels : List Sel) : List Sel :=
     | .node n => !(nodeLocs.any fun l => properPrefix l n.loc)
     | .attrs o _ => !(nodeLocs.any fun l => l.isPrefixOf o.loc)
 
-/-- what `Stream.select` must deliver -/
-def xpSelect (ps : List LocPath) (ns : NsMap) (vs : XVars) (root : Node) : List Item :=
+/-- what `Stream.select` must deliver, by node sets: the union of the paths' node sets, the
+    outermost members, each element with its subtree (kept as a second formulation: the driver
+    checks on every case that it agrees with `xpSelect` below) -/
+def xpSelectSets (ps : List LocPath) (ns : NsMap) (vs : XVars) (root : Node) : List Item :=
   (outermost (xpUnion ps ns vs ⟨[], root⟩)).flatMap fun s =>
     match s with
     | .node n => n.node.flatten.map Item.ev
     | .attrs _ a => [Item.attrs a]
+
+/-- is `n` in the node set of one of the location paths (those not ending in an attribute step) -/
+def nodeSelected (ps : List LocPath) (ns : NsMap) (vs : XVars) (root n : LNode) : Bool :=
+  ps.any fun p =>
+    match p.getLast? with
+    | some last => last.axis != .attribute && reach ns vs p root n
+    | none => false
+
+/-- the attributes of `n` selected by the location paths that end in an attribute step, in
+    the order of the element's attribute list -/
+def attrsSelected (ps : List LocPath) (ns : NsMap) (vs : XVars) (root n : LNode) : AttrList :=
+  match n.node with
+  | .elem _ attrs _ =>
+      attrs.filter fun a => ps.any fun p =>
+        match p.getLast? with
+        | some last =>
+            last.axis == .attribute && reach ns vs p.dropLast root n && (attrNodes last.test n.node ns).contains a
+        | none => false
+  | .leaf _ => []
+
+mutual
+  /-- the outermost selected nodes in document order: a selected node is delivered whole (an
+      element with its complete subtree); otherwise its selected attributes, then whatever is
+      selected among its children -/
+  def pick (sel : LNode → Bool) (asel : LNode → AttrList) : Node → List Nat → List Item
+    | .elem t a ks, loc =>
+        if sel ⟨loc, .elem t a ks⟩ then (Node.elem t a ks).flatten.map Item.ev
+        else
+          (if (asel ⟨loc, .elem t a ks⟩).isEmpty then [] else [Item.attrs (asel ⟨loc, .elem t a ks⟩)])
+            ++ pickList sel asel ks loc 0
+    | .leaf e, loc => if sel ⟨loc, .leaf e⟩ then [Item.ev e] else []
+  def pickList (sel : LNode → Bool) (asel : LNode → AttrList) : List Node → List Nat → Nat → List Item
+    | [], _, _ => []
+    | k :: ks, loc, i => pick sel asel k (loc ++ [i]) ++ pickList sel asel ks loc (i + 1)
+end
+
+/-- what `Stream.select` must deliver -/
+def xpSelect (ps : List LocPath) (ns : NsMap) (vs : XVars) (root : Node) : List Item :=
+  pick (nodeSelected ps ns vs ⟨[], root⟩) (attrsSelected ps ns vs ⟨[], root⟩) root []
 
 /-! ## Streams to trees (driver utility; also used to state theorems about streams) -/
 
